@@ -334,6 +334,7 @@ pub fn doc(path: &str, format: Format, tests: Vec<Test>) -> Doc {
         stored_at: None,
         file_symlink: false,
         fence_wide_gap: false,
+        pad_lines: 0,
         long_closing_fence: false,
         unreadable: None,
     }
@@ -630,6 +631,8 @@ pub fn lane_timing(tier: Tier, seed: u64) -> Vec<Scenario> {
         /// `--timeout-seconds 4` over `total_timeout: 0s` (unlimited) in the front-matter: the
         /// command line wins here too - "0" is not the smallest limit
         ShortCliOverZeroFront,
+        /// `--timeout-seconds 4294967300` (2^32 + 4): a limit of 136 years, not of 4 s
+        WrapCli,
     }
     #[derive(Clone, Copy, Debug, PartialEq)]
     enum TestLim {
@@ -651,7 +654,7 @@ pub fn lane_timing(tier: Tier, seed: u64) -> Vec<Scenario> {
         DurOver,
     }
     for script in [false, true] {
-        for dl in [DocLim::Absent, DocLim::Zero, DocLim::ShortFront, DocLim::ShortCli, DocLim::HugeCli, DocLim::ZeroCliOverFront, DocLim::ShortCliOverZeroFront] {
+        for dl in [DocLim::Absent, DocLim::Zero, DocLim::ShortFront, DocLim::ShortCli, DocLim::HugeCli, DocLim::ZeroCliOverFront, DocLim::ShortCliOverZeroFront, DocLim::WrapCli] {
             for tl in [TestLim::Absent, TestLim::Shorter, TestLim::Longer, TestLim::ShorterInDefaults, TestLim::Huge] {
                 if script && tl != TestLim::Absent {
                     continue;
@@ -672,7 +675,14 @@ pub fn lane_timing(tier: Tier, seed: u64) -> Vec<Scenario> {
                                 DocLim::ShortFront => Some(if script && tier == Tier::Cli { 4 * SEC } else { 4500 * MS }),
                                 DocLim::ShortCli | DocLim::ShortCliOverZeroFront => Some(4 * SEC),
                                 DocLim::HugeCli => Some(7200 * SEC),
+                                // (the classes are laid out around the 4 s it must NOT be taken for)
+                                DocLim::WrapCli => Some(4 * SEC),
                             };
+                            if dl == DocLim::WrapCli
+                                && (tier != Tier::Cli || wait != W::None || !matches!(cls, DurClass::Short | DurClass::JustUnder | DurClass::JustOver | DurClass::Long))
+                            {
+                                continue;
+                            }
                             // the tests before the slow one take 1 s each
                             let before = pos as u64 * SEC;
                             let wait_ns = match wait {
@@ -795,6 +805,7 @@ pub fn lane_timing(tier: Tier, seed: u64) -> Vec<Scenario> {
                                     }
                                 }
                                 DocLim::HugeCli => cli.timeout_seconds = Some(7200),
+                                DocLim::WrapCli => cli.timeout_seconds = Some((1u64 << 32) + 4),
                                 DocLim::ZeroCliOverFront => {
                                     cli.timeout_seconds = Some(0);
                                     if format == Format::Md {
